@@ -307,7 +307,7 @@ theorem lines8_endsLF : ∀ (f cur : Bytes), ∀ it ∈ (lines8 cur f).dropLast,
 /-- what the loop feeds to the hash for non-UTF-16 text: the text cut into pieces that end with a line feed (and a
     last piece), each converted on its own -/
 theorem digestLoop_stream8 (first : Bytes) (k flen : Nat) (items : List Item) (saved h : Bytes) (ts pos : Nat)
-    (H : Bytes) (T S : Nat) (e : digestLoop true first false k flen items saved h ts pos = .ok (H, T, S))
+    (H : Bytes) (T S : Nat) (e : digestLoop true true first false k flen items saved h ts pos = .ok (H, T, S))
     (F : Bytes) (done : List Bytes) (hF : F = done.flatten ++ saved ++ joinItems items)
     (hh : h = done.flatMap (toUtf16 0)) (hts : ts = done.flatten.length) (hd : ∀ l ∈ done, EndsLF l)
     (hs : EndsLF saved ∨ items = []) (hi : ∀ it ∈ items.dropLast, EndsLF (itemBytes it)) :
@@ -330,12 +330,14 @@ theorem digestLoop_stream8 (first : Bytes) (k flen : Nat) (items : List Item) (s
       · split at e
         · simp at e
         · rename_i hk
-          injection e with e; injection e with e1 e2; injection e2 with e2 e3
-          refine ⟨done, saved.take (saved.length - k), ?_, by rw [← e1, hh]; simp [conv], hd⟩
-          subst hF; subst e2; subst hts
-          simp only [List.length_take, List.append_assoc]
-          have : min (saved.length - k) saved.length = saved.length - k := by omega
-          rw [this, take_mid done.flatten saved _ _ (by omega)]
+          split at e
+          · simp at e
+          · injection e with e; injection e with e1 e2; injection e2 with e2 e3
+            refine ⟨done, saved.take (saved.length - k), ?_, by rw [← e1, hh]; simp [conv], hd⟩
+            subst hF; subst e2; subst hts
+            simp only [List.length_take, List.append_assoc]
+            have : min (saved.length - k) saved.length = saved.length - k := by omega
+            rw [this, take_mid done.flatten saved _ _ (by omega)]
       · have hsv : EndsLF saved := by
           rcases hs with hs | hs
           · exact hs
@@ -396,7 +398,7 @@ theorem DigestPS_stream8 (f : Bytes) (style : Nat) (d : Digest) (e : DigestPS f 
   | some se =>
     obtain ⟨st, en⟩ := se
     simp only [hs] at e
-    cases hl : digestLoop true (firstLine st en (isUtf16 f)) (isUtf16 f) (if isUtf16 f = true then 4 else 2) f.length
+    cases hl : digestLoop true true (firstLine st en (isUtf16 f)) (isUtf16 f) (if isUtf16 f = true then 4 else 2) f.length
         (if isUtf16 f = true then lines16 [] f else lines8 [] f) [] [] 0 0 with
     | err _ => simp [hl] at e
     | panic _ => simp [hl] at e
